@@ -13,7 +13,7 @@
                   size empty clear xmin xmax iter
             (the "w" forms are the *_with(key, less) overloads of the same operation)
      <id> Q <kind> <cap> <counted> <empty_by_size> <disp> | op op ...  queue-like container
-            kind: 0 fifo, 1 stack, 2 deque, 3 priority queue;  cap: -1 unbounded;  disp: 0 QDNone, 1 QDLag, 2 QDClear
+            kind: 0 fifo, 1 stack, 2 deque, 3 priority queue;  cap: -1 unbounded;  disp: 0 QDNone, 1 QDLag, 2 QDClear, 3 QDManual, 4 QDTotal
             ops:  push:v enq:v emp:v pushw:v pushb:v -> APush     pop deq popw popf -> APop
                   pushf:v -> APushFront     popb -> APopBack      size empty clear
      <id> S <quasi factor> | op op ...                                  SegmentedQueue with a random permutation
@@ -115,7 +115,7 @@ let run_q id cfg ops =
     let c = { qc_kind = (match kind with 0 -> QFifo | 1 -> QStack | 2 -> QDeque | _ -> QPrio);
               qc_cap = (if cap < 0 then None else Some (nat_of_int cap));
               qc_counted = b counted; qc_empty_by_size = b ebs;
-              qc_disp = (match disp with 0 -> QDNone | 1 -> QDLag | _ -> QDClear) } in
+              qc_disp = (match disp with 0 -> QDNone | 1 -> QDLag | 2 -> QDClear | 3 -> QDManual | _ -> QDTotal) } in
     let (outs, fin) = qrun_case c (List.map aop_of ops) in
     Printf.printf "# %s\n" id;
     List.iteri (fun i o -> Printf.printf "%d %s d%d\n" i (qres_str o.qo_res) (int_of_nat o.qo_disp)) outs;
